@@ -10,7 +10,7 @@ from typing import Optional
 
 from vf import pools
 from vf.engine import Ctx, Failure
-from vf.harness.common import api_kwargs, bounds_of, method_classes, program_of, ref_opts, self_of
+from vf.harness.common import api_kwargs, bounds_of, method_classes, program_of, ref_opts, self_of, tree_state
 from vf.harness.deser_e2e import has_obj, n_positions
 from vf.sym import Bounds, Gen, snapshot
 
@@ -111,6 +111,7 @@ class E2E:
         ctx.witness = d
         snap = snapshot(d)
         cls_snap = [sorted(vars(c)) for c in self.classes]
+        tree = tree_state(self_of(self.method))
         ctx.run_phase()
         try:
             self.method(d)
@@ -130,6 +131,8 @@ class E2E:
             return Failure("input-mutated", witness=d)
         if [sorted(vars(c)) for c in self.classes] != cls_snap:
             return Failure("class-mutated", witness=d)
+        if tree_state(self_of(self.method)) != tree:
+            return Failure("compiled-method-mutated", witness=d)
         return None
 
 
